@@ -6,7 +6,8 @@ From EC Require Import Lib.Outcome Lib.U64 Lib.ListW Model.Msgs Model.Replica Mo
   Model.ProtocolSync Proofs.ProtocolRefinesExec Proofs.ProtocolRefinesExample
   Proofs.ProtocolLive Proofs.ProtocolLiveInv Proofs.ProtocolLiveExample Proofs.ProtocolLiveCatch
   Proofs.ProtocolLiveNoStop Proofs.ProtocolLiveCommitStep Proofs.ProtocolLiveCommitLock Proofs.ProtocolLiveCommit
-  Proofs.ProtocolLiveTimeoutStep Proofs.ProtocolLiveTimeoutLock Proofs.ProtocolLiveTimeout.
+  Proofs.ProtocolLiveTimeoutStep Proofs.ProtocolLiveTimeoutLock Proofs.ProtocolLiveTimeout
+  Proofs.ProtocolLiveTidy Proofs.ProtocolLiveLockstep.
 Import ListNotations.
 Open Scope Z_scope.
 
@@ -343,6 +344,7 @@ Definition C06_view_times_out : Prop :=
   (honestb P L' = true ->
      exists tq p, vnum (tqview tq) = V /\
        justification_verify (p_g P) (p_e P) (p_C P) (JTimeout tq) = Ok tt /\
+       ProtocolRefinesStep.kt (honestb P) (g_soup s2) tq /\
        proposal_payload P pay (JTimeout tq) = Some p /\
        In {| m_key := L'; m_sig_ok := true; m_msg := MProposal p (JTimeout tq) |} (g_soup s2) /\
        (forall m p' j' mv', In m (g_soup s2) -> m_msg m = MProposal p' j' -> m_key m = L' -> m_sig_ok m = true ->
@@ -364,6 +366,33 @@ Proof.
   split; [|split; [exact H4|exact H5]].
   intros k Hk. destruct (H3 k Hk) as (A & B & C & D). destruct (Hw k Hk) as (_ & _ & _ & Hh).
   repeat split; auto. rewrite Hh. unfold height. exact D.
+Qed.
+
+(* (e) from a lockstep state: if one of the leaders of views V .. V+nbyz is honest, block n is
+   stored by every honest node within 2*(nbyz+1) rounds.  The lockstep state (ProtocolLiveLockstep):
+   every honest node waits in view V with the blocks below n stored; nothing above block n-1 is
+   voted or certified (no good commit certificate for a number >= n on the network, honest high
+   votes below n, honest high commit certificates for block n-1 -- or none at the first block);
+   and the network holds the single proposal of an honest leader of V for the new block n, or no
+   verifying proposal for V if that leader is Byzantine.  What separates this from
+   C06_progress_partial is (c): reaching a lockstep state from an arbitrary reachable state. *)
+Definition C06_progress_from_lockstep : Prop :=
+  forall P pay fetch (nbyz : nat), params_ok P -> env_ok P pay -> forall s V n, preach P s ->
+  headroom P s (Z.of_nat nbyz + 2) -> 0 < V -> lockstep P pay s V n -> byz_run P V nbyz ->
+  exists r, (1 <= r <= nbyz + 1)%nat /\
+    forall k, honestb P k = true ->
+      up (sync_rounds P pay fetch (2 * r) s) k /\ n < height (sync_rounds P pay fetch (2 * r) s) k.
+
+Theorem progress_from_lockstep_holds : C06_progress_from_lockstep.
+Proof.
+  intros P pay fetch nbyz HP He s V n Hr (Hd & Hs) HV HLS (i & Hi & Hhi).
+  assert (HdV : p_first P + V + (Z.of_nat nbyz + 2) < U64).
+  { destruct HLS as (_ & Hlock & _). set (k0 := cleader (pcfg P 0) (V + Z.of_nat i)) in *.
+    destruct (Hlock k0 Hhi) as (Hu & Hv & _). specialize (Hd k0 Hhi).
+    rewrite (up_dview P HP s k0 Hr Hhi Hu), Hv in Hd. exact Hd. }
+  assert (Hf : 0 <= p_first P) by apply He.
+  exact (progress_from_lockstep P HP pay fetch He (U64 - 2) ltac:(lia) nbyz s V n Hr HV ltac:(lia) ltac:(lia)
+           (fun m Hm => ltac:(specialize (Hs m Hm); lia)) HLS (ex_intro _ i (conj Hi Hhi))).
 Qed.
 
 (* a boolean test of [proposal_on_network]: exactly one proposal message on the network, and it
@@ -467,6 +496,50 @@ Proof.
   - apply no_proposal_by_filter. vm_compute. reflexivity.
   - vm_compute. reflexivity.
   - vm_compute. reflexivity.
+Qed.
+
+(* the state after the first round of the six-validator committee is a lockstep state for
+   view 1 (Byzantine leader) and block 0, and the leader of view 2 is honest *)
+Definition is_commit (m : sgmsg) : bool := match m_msg m with MCommit _ => true | _ => false end.
+
+Lemma no_commit_no_cert P s n : params_ok P -> filter is_commit (g_soup s) = [] ->
+  forall q, ProtocolRefinesStep.gq (pcfg P 0) (honestb P) (g_soup s) q -> hnum (cprop (qmsg q)) < n.
+Proof.
+  intros HP Hb q [Hv Hk]. exfalso. destruct (cqc_honest_signer P HP q Hv) as (h & Hh & Hin).
+  pose proof (Hk h (qmsg q) Hin Hh) as Hsent. unfold ProtocolRefinesStep.sent in Hsent.
+  assert (Hm : In {| m_key := h; m_sig_ok := true; m_msg := MCommit (qmsg q) |} (filter is_commit (g_soup s)))
+    by (apply filter_In; split; [exact Hsent|reflexivity]).
+  rewrite Hb in Hm. destruct Hm.
+Qed.
+
+Definition tidy0b (P : params) (s : gstate) (k : Z) : bool :=
+  match r_high_vote (n_live (g_node s k)), r_high_cqc (n_live (g_node s k)) with None, None => true | _, _ => false end.
+Lemma tidy0b_spec P s k : tidy0b P s k = true -> tidy_node P (p_first P) (n_live (g_node s k)).
+Proof.
+  unfold tidy0b. destruct (r_high_vote (n_live (g_node s k))) eqn:E1; [discriminate|].
+  destruct (r_high_cqc (n_live (g_node s k))) eqn:E2; [discriminate|]. intros _. split.
+  - intros c Hc. unfold hv_ok in *. congruence.
+  - left. auto.
+Qed.
+
+Lemma lockstep_of_checks P pay s V : params_ok P -> waiting P s V (p_first P) -> no_proposal P s V ->
+  honestb P (cleader (pcfg P 0) V) = false -> filter is_commit (g_soup s) = [] ->
+  forallb (tidy0b P s) (honest_keys P) = true -> lockstep P pay s V (p_first P).
+Proof.
+  intros HP Hw Hnp HL Hc Ht. split; [lia|]. split; [|split; [|split]].
+  - intros k Hk. destruct (Hw k Hk) as (A & B & C & D). unfold height in D. repeat split; auto. lia.
+  - split; [apply (no_commit_no_cert P s (p_first P) HP Hc)|].
+    intros k Hk. apply tidy0b_spec. rewrite forallb_forall in Ht. apply Ht. apply hon_in_honest_keys. exact Hk.
+  - intros H. rewrite HL in H. discriminate.
+  - intros _. exact Hnp.
+Qed.
+
+Lemma ex_lockstep : lockstep ex_P6 ex_pay ex_s6 1 (p_first ex_P6) /\ byz_run ex_P6 1 1.
+Proof.
+  destruct ex_view_times_out_hyps as (Hr & _ & Hw & Hnp & HL & _).
+  split.
+  - apply (lockstep_of_checks ex_P6 ex_pay ex_s6 1 ex_P6_ok Hw Hnp HL); vm_compute; reflexivity.
+  - exists 1%nat. split; [lia|]. vm_compute. reflexivity.
 Qed.
 
 (* ================================================================== *)
